@@ -9,8 +9,6 @@ HERE = os.path.dirname(os.path.dirname(os.path.abspath(__file__)))
 CLAIMED = {}
 
 NOT_APPLICABLE = {
-    'C06': 'static analysis cannot decide it here: equality of a dense matrix with a textbook formula for every L '
-           'and parameter value is a numerical statement; its code-shape parts belong to C05/C07 (ids, coefficient flow)',
     'C15': 'static analysis cannot decide it here: Ritz-value bounds, unitarity and exactness at Krylov exhaustion are '
            '(in)equalities between floating-point results of eigh_tridiagonal/expm; only the size agreement is structural (C14)',
     'C18': 'static analysis cannot decide it here: maximality of the matching / minimality of the cover are semantic '
